@@ -1,0 +1,27 @@
+/*
+Copyright 2026 Codenotary Inc. All rights reserved.
+
+SPDX-License-Identifier: BUSL-1.1
+*/
+
+package store
+
+// Lock probes used by the simulation hooks (build tag "verif"): a task is only
+// scheduled to acquire a mutex that is free, so that no goroutine ever blocks
+// on a mutex held by a parked task. Unused in regular builds.
+
+func (s *ImmuStore) simTryMutex() bool {
+	if s.mutex.TryLock() {
+		s.mutex.Unlock()
+		return true
+	}
+	return false
+}
+
+func (s *ImmuStore) simTryIndexersMux() bool {
+	if s.indexersMux.TryLock() {
+		s.indexersMux.Unlock()
+		return true
+	}
+	return false
+}
